@@ -33,10 +33,11 @@ TInit ==
     /\ lim = MinOf({j \in Starts : j > i} \cup {Len(Rec) + 1}) - 1
     /\ InitWith([mode |-> c.mode, cup |-> c.cup, sys |-> c.sys, kid |-> c.kid], c.apps, c.os)
 
+First == MaxOr0({j \in Starts : j <= l + 1})     \* the "cfg" line of this run
 NR == Rec[l + 1]
 Nx(k) == l < lim /\ NR.k = k
 \* the next recorded line is something the environment does to the machine
-NxStim == l < lim /\ NR.k \in {"ctl.send", "clock", "crash", "tm.fire"}
+NxStim == l < lim /\ NR.k \in {"ctl.send", "clock", "crash", "tm.fire", "hold"}
 \* the first line of kind k after position l in this run
 FirstOf(k) == LET S == {j \in (l + 1)..lim : Rec[j].k = k} IN Rec[MinOf(S)]
 HasNext(k) == \E j \in (l + 1)..lim : Rec[j].k = k
@@ -50,10 +51,17 @@ SameKey(a, b) ==
   /\ (a.k = "tm.fire" => a.tid = b.tid)
   /\ (a.k = "met" => a.m = b.m)
   /\ (a.k \in StKinds => a.ans = b.ans)
+  /\ (a.k \in {"pol.check", "pol.rballowed"} => a.src = b.src)   \* whose options the policy was asked with
   /\ (a.k = "crash" => a.at = b.atk)          \* where the machine was blocked: an operation, an idle select, an event
 Kept(ls) == SelectSeq(ls, LAMBDA e : e.k # "ctl.reply")
+\* the replies the run recorded, by request (the "cfg" line of the filtered log carries them): a reply the model
+\* gives must be the one that request got, wherever the driver happened to log it
+RepliesOfRun == Rec[First].replies
+ReplyOk(e) == LET r == ToString(e.req) IN Has(RepliesOfRun, r) /\ RepliesOfRun[r] = e.ans
 Match ==
-  LET nl == Kept(SubSeq(obs', Len(obs) + 1, Len(obs'))) IN
+  LET new == SubSeq(obs', Len(obs) + 1, Len(obs'))
+      nl == Kept(new) IN
+  /\ \A j \in 1..Len(new) : new[j].k = "ctl.reply" => ReplyOk(new[j])
   /\ l + Len(nl) <= lim
   /\ \A j \in 1..Len(nl) : SameKey(nl[j], Rec[l + j])
   /\ l' = l + Len(nl)
@@ -79,8 +87,19 @@ CutHere ==
   /\ st' = [st EXCEPT !.pc = "DONE"]
   /\ UNCHANGED script
 
-TStep ==
+\* a queued scheduled-source request in the reboot wait is answered without a trace in the log: taking it at once
+\* (rather than at every possible later moment) keeps one explanation per run
+SilentCtl == /\ st.pc = "W3" /\ st.ctlq # <<>> /\ Head(st.ctlq).src # "ondemand"
+             /\ LET r == ToString(Head(st.ctlq).req) IN Has(RepliesOfRun, r) /\ RepliesOfRun[r] = "already"
+\* the consumer stops polling for a while (a driver line; the machine does not notice, but what the environment does
+\* meanwhile piles up)
+HoldLine ==
+  /\ Nx("hold")
+  /\ Emit(<<Stamp([k |-> "hold", n |-> NR.n], st.clk)>>)
+  /\ UNCHANGED <<st, script>>
+TStepRest ==
   \/ (Nx("cfg") /\ B0_With(FailsOfRun))
+  \/ HoldLine
   \/ R4_ReportWait
   \/ (Nx("crash") /\ HasNext("restart") /\ Crash(RunOfRestart))
   \/ (Nx("clock") /\ ClockJump(NR.dw))
@@ -111,7 +130,6 @@ TStep ==
   \/ S3_Ok \/ S4_Err \/ S5_Close
   \/ R11_Wfr
   \/ (Nx("pol.rballowed") /\ (W1_Ask(NR.ans) \/ W3_RebootTimer(NR.ans) \/ W3_Ctl(NR.ans)))
-  \/ (st.pc = "W3" /\ st.ctlq # <<>> /\ Head(st.ctlq).src # "ondemand" /\ W3_Ctl(FALSE))
   \/ (Nx("pol.next") /\ st.pc = "W2" /\ R5_Next(NR.ans, "W3"))
   \/ (~NxStim /\ W3_PingTimer)
   \/ G2_PingDone
@@ -119,6 +137,9 @@ TStep ==
   \/ EndOneShot
   \/ (Nx("end") /\ EndStart)
   \/ CutHere
+
+TStep ==
+  IF SilentCtl THEN W3_Ctl(FALSE) ELSE TStepRest
 
 (***************************************************************************)
 (* Grain of atomicity.  The recorded runs crash the machine (or cut the    *)
@@ -130,7 +151,6 @@ TStep ==
 (* against the model's own Crash by the invariant RecoverAgrees).          *)
 (* TLC evaluates A \cdot B with -Dtlc2.tool.impl.Tool.cdot=true.           *)
 (***************************************************************************)
-First == MaxOr0({j \in Starts : j <= l + 1})
 KeptIdx(ls) == SelectSeq([i \in 1..Len(ls) |-> i], LAMBDA i : ls[i].k # "ctl.reply")
 RunAfter(p) == LET S == {j \in (p + 1)..lim : Rec[j].k = "restart"}
                    r == Rec[MinOf(S)].run IN [os |-> r.os, apps |-> r.apps]
